@@ -466,6 +466,9 @@ func (a *AndExpr) String() string {
 
 // NullableVisit recursively determines whether an object is nullable.
 func (a *AndExpr) NullableVisit(rules map[string]*Rule) bool {
+	// A predicate consumes nothing, but the nullable attributes of the nodes
+	// below it are needed by InitialNames.
+	a.Expr.NullableVisit(rules)
 	return true
 }
 
@@ -476,7 +479,9 @@ func (a *AndExpr) IsNullable() bool {
 
 // InitialNames returns names of nodes with which an expression can begin.
 func (a *AndExpr) InitialNames() map[string]struct{} {
-	return make(map[string]struct{})
+	// The predicate is evaluated at the position where it starts: a rule
+	// invoked first by its expression is invoked at that same position.
+	return a.Expr.InitialNames()
 }
 
 // NotExpr is a zero-length matcher that is considered a match if the
@@ -503,6 +508,9 @@ func (n *NotExpr) String() string {
 
 // NullableVisit recursively determines whether an object is nullable.
 func (n *NotExpr) NullableVisit(rules map[string]*Rule) bool {
+	// A predicate consumes nothing, but the nullable attributes of the nodes
+	// below it are needed by InitialNames.
+	n.Expr.NullableVisit(rules)
 	return true
 }
 
@@ -513,7 +521,9 @@ func (n *NotExpr) IsNullable() bool {
 
 // InitialNames returns names of nodes with which an expression can begin.
 func (n *NotExpr) InitialNames() map[string]struct{} {
-	return make(map[string]struct{})
+	// The predicate is evaluated at the position where it starts: a rule
+	// invoked first by its expression is invoked at that same position.
+	return n.Expr.InitialNames()
 }
 
 // ZeroOrOneExpr is an expression that can be matched zero or one time.
